@@ -168,9 +168,7 @@ pub fn judge(cfg: &Config) -> Result<String, (String, String)> {
     if m.status != cfg.status {
         return Err(("status".into(), format!("client recovers status {}", m.status)));
     }
-    if m.version != cfg.version {
-        return Err(("version".into(), format!("status line says HTTP/{}.{}", m.version.0, m.version.1)));
-    }
+    // (which HTTP-version the status line carries is not part of the statement)
     let no_body = cfg.head || (100..200).contains(&cfg.status) || cfg.status == 204 || cfg.status == 304;
     if no_body {
         if !m.body.is_empty() || !m.after_upgrade.is_empty() {
